@@ -232,7 +232,17 @@ func (v *V) JSON() string {
 	return sb.String()
 }
 
-func (v *V) json(sb *strings.Builder) {
+// YAMLFlow is JSON() with map keys that are not strings left unquoted ({1: "a"}): read as YAML it gives the same value back,
+// key types included.
+func (v *V) YAMLFlow() string {
+	var sb strings.Builder
+	v.flow(&sb, true)
+	return sb.String()
+}
+
+func (v *V) json(sb *strings.Builder) { v.flow(sb, false) }
+
+func (v *V) flow(sb *strings.Builder, typedKeys bool) {
 	switch v.K {
 	case Null:
 		sb.WriteString("null")
@@ -246,7 +256,7 @@ func (v *V) json(sb *strings.Builder) {
 			if i > 0 {
 				sb.WriteString(", ")
 			}
-			c.json(sb)
+			c.flow(sb, typedKeys)
 		}
 		sb.WriteByte(']')
 	case Map:
@@ -255,13 +265,13 @@ func (v *V) json(sb *strings.Builder) {
 			if i > 0 {
 				sb.WriteString(", ")
 			}
-			if v.Keys[i].K == Str {
+			if v.Keys[i].K == Str || !typedKeys || !v.Keys[i].IsScalar() {
 				sb.WriteString(JSONQuote(v.Keys[i].S))
 			} else {
-				sb.WriteString(JSONQuote(v.Keys[i].S))
+				sb.WriteString(v.Keys[i].S)
 			}
 			sb.WriteString(": ")
-			c.json(sb)
+			c.flow(sb, typedKeys)
 		}
 		sb.WriteByte('}')
 	}
